@@ -4094,63 +4094,99 @@ def _remainder_only_examined(repo: Repo, f: FuncInfo, n: ast.AST) -> bool:
     return dot_test
 
 
-def _element_selected_by_helper(repo: Repo, f: FuncInfo, use: ast.AST, hay_e: ast.Name, other: str) -> bool:
-    """`hay` is the variable of a loop / comprehension over `helper(.., other, ..)` and every value the helper returns is a
-    comprehension (or filter) over candidates whose conditions establish `element == param or element.startswith(param + ".")`
-    for the parameter that receives `other`."""
-    from core.guards import f_and, f_or, implies, to_formula
+def _helper_selections(repo: Repo, g: FuncInfo) -> list[tuple[str, object]] | None:
+    """What a selecting helper hands out: [(element variable, condition that holds for every element handed out)] - one entry per
+    `return [v for v in xs if cond]` (also through a local / list() / sorted()) or per `yield v` inside a loop `for v in xs`
+    (the path condition of the yield); None if the helper hands out anything else."""
+    from core.guards import f_and, to_formula
 
-    from .common import copy_prop
+    from .common import copy_prop, guard_formula
 
-    lb = _loop_binding(f, hay_e.id, use)
-    if lb is None or not isinstance(lb[0], ast.Name):
-        return False
-    it = lb[1]
-    for _ in range(3):
-        if isinstance(it, ast.Name):
-            it = local_defs(repo, f).get(it.id)
-        elif isinstance(it, ast.Call) and isinstance(it.func, ast.Name) and _call_name(it) in ("sorted", "list", "tuple", "set", "reversed", "iter", "frozenset") and it.args:
-            it = it.args[0]
-        else:
-            break
-    if not isinstance(it, ast.Call):
-        return False
-    cs = origins(repo)._callees(f, it)
-    if len(cs) != 1 or isinstance(cs[0].node, ast.Lambda):
-        return False
-    g = cs[0]
-    pos_ = _positional(g)
-    op = next((pos_[i] for i, a in enumerate(it.args) if i < len(pos_) and norm(a) == other), None) or next((k.arg for k in it.keywords if norm(k.value) == other), None)
-    if op is None and isinstance(it.func, ast.Attribute) and pos_ and pos_[0] in ("self", "cls"):
-        shifted = pos_[1:]
-        op = next((shifted[i] for i, a in enumerate(it.args) if i < len(shifted) and norm(a) == other), None)
-    if op is None or any(isinstance(x, (ast.Yield, ast.YieldFrom)) for x in own_nodes(g.node)):
-        return False
-    if origins(repo)._bindings(g, op):
-        return False  # the parameter is re-bound inside the helper
+    if isinstance(g.node, ast.Lambda):
+        return None
+    yields = [x for x in own_nodes(g.node) if isinstance(x, (ast.Yield, ast.YieldFrom))]
     rets = Origins._returns(g)
+    out: list[tuple[str, object]] = []
+    if yields:
+        if rets or any(isinstance(y, ast.YieldFrom) for y in yields):
+            return None
+        for y in yields:
+            if not isinstance(y.value, ast.Name):
+                return None
+            loop = next((a_ for a_ in ancestors(y) if isinstance(a_, (ast.For, ast.AsyncFor)) and isinstance(a_.target, ast.Name) and a_.target.id == y.value.id), None)
+            if loop is None or any(isinstance(x, ast.Name) and x.id == y.value.id and isinstance(x.ctx, ast.Store) and x is not loop.target for st_ in loop.body for x in ast.walk(st_)):
+                return None
+            out.append((y.value.id, guard_formula(g, y)))
+        return out
     if not rets:
-        return False
+        return None
     for r in rets:
         for _ in range(3):
             if isinstance(r, ast.Name):
                 r = local_defs(repo, g).get(r.id)
-            elif isinstance(r, ast.Call) and isinstance(r.func, ast.Name) and _call_name(r) in ("sorted", "list", "tuple", "set", "frozenset") and r.args:
+            elif isinstance(r, ast.Call) and isinstance(r.func, ast.Name) and _call_name(r) in ("sorted", "list", "tuple", "set", "frozenset", "iter") and r.args:
                 r = r.args[0]
             else:
                 break
         if isinstance(r, (ast.List, ast.Tuple, ast.Set)) and not r.elts:
             continue
         if not (isinstance(r, (ast.ListComp, ast.SetComp, ast.GeneratorExp)) and len(r.generators) == 1 and isinstance(r.elt, ast.Name) and isinstance(r.generators[0].target, ast.Name) and r.generators[0].target.id == r.elt.id and r.generators[0].ifs):
-            return False
-        facts = f_and([to_formula(c, copy_prop(g)) for c in r.generators[0].ifs])
-        safe_a, _raw = _relation_atoms(repo, g, facts, r.elt.id, {op})
-        try:
-            if not (safe_a and implies(facts, f_or(safe_a))):
-                return False
-        except AnalysisError:
-            return False
-    return True
+            return None
+        out.append((r.elt.id, f_and([to_formula(c, copy_prop(g)) for c in r.generators[0].ifs])))
+    return out or None
+
+
+def _element_selected_by_helper(repo: Repo, f: FuncInfo, use: ast.AST, hay_e: ast.expr, other_e: ast.expr) -> bool:
+    """One of the two strings is the variable of a loop / comprehension over `helper(.., <the other string>, ..)`, and every element
+    the helper hands out (filtered comprehension it returns, or `yield` under a condition inside its loop) satisfies
+    `hay == other or hay.startswith(other + ".")` - with the element in the role of the loop variable and the parameter that
+    receives the other string in the other role:
+      for m in self._submodules_including(p): m[len(p):]      (the name is the element)
+      for p in self._containing(m, candidates): m[len(p):]    (the prefix is the element)"""
+    from core.guards import f_or, implies
+
+    for var_e, arg_e, var_is_hay in ((hay_e, other_e, True), (other_e, hay_e, False)):
+        if not isinstance(var_e, ast.Name):
+            continue
+        lb = _loop_binding(f, var_e.id, use)
+        if lb is None or not isinstance(lb[0], ast.Name):
+            continue
+        it = lb[1]
+        for _ in range(3):
+            if isinstance(it, ast.Name):
+                it = local_defs(repo, f).get(it.id)
+            elif isinstance(it, ast.Call) and isinstance(it.func, ast.Name) and _call_name(it) in ("sorted", "list", "tuple", "set", "reversed", "iter", "frozenset") and it.args:
+                it = it.args[0]
+            else:
+                break
+        if not isinstance(it, ast.Call):
+            continue
+        cs = origins(repo)._callees(f, it)
+        if len(cs) != 1 or isinstance(cs[0].node, ast.Lambda):
+            continue
+        g = cs[0]
+        arg_text = norm(arg_e)
+        pos_ = _positional(g)
+        if isinstance(it.func, ast.Attribute) and pos_ and pos_[0] in ("self", "cls"):
+            pos_ = pos_[1:]
+        op = next((pos_[i] for i, a in enumerate(it.args) if i < len(pos_) and norm(a) == arg_text), None) or next((k.arg for k in it.keywords if norm(k.value) == arg_text), None)
+        if op is None or origins(repo)._bindings(g, op):
+            continue  # not handed to the helper / re-bound inside it
+        sels = _helper_selections(repo, g)
+        if not sels:
+            continue
+        ok = True
+        for elt, facts in sels:
+            H, N = (elt, op) if var_is_hay else (op, elt)
+            safe_a, _raw = _relation_atoms(repo, g, facts, H, {N})
+            try:
+                if not (safe_a and implies(facts, f_or(safe_a))):
+                    ok = False
+            except AnalysisError:
+                ok = False
+        if ok:
+            return True
+    return False
 
 
 def _slice_by_len(repo: Repo, f: FuncInfo, n: ast.AST, other_e: ast.expr, boundary_funcs: set[str], depth: int = 0, hay_e: ast.expr | None = None, relation_only: bool = False) -> tuple[str, str]:
@@ -4248,10 +4284,10 @@ def _slice_by_len(repo: Repo, f: FuncInfo, n: ast.AST, other_e: ast.expr, bounda
                 return "safe", "every caller establishes, by a relation predicate of the same object, that the argument is the name or one of its ancestors"
     # the name is an element of what a helper selected for the other string: `for m in self._submodules_including(p): m[len(p):]`
     # with `return [m for m in names if m == p or m.startswith(p + ".")]`
-    if depth < 2 and isinstance(hay_e, ast.Name) and not isinstance(f.node, ast.Lambda):
+    if depth < 2 and (isinstance(hay_e, ast.Name) or isinstance(other_e, ast.Name)) and not isinstance(f.node, ast.Lambda):
         try:
-            if _element_selected_by_helper(repo, f, n, hay_e, other):
-                return "safe", "the name is an element of a collection that a helper filtered by a boundary-safe test against the other string"
+            if _element_selected_by_helper(repo, f, n, hay_e, other_e):
+                return "safe", "one of the two strings is an element that a helper selected (filtered comprehension / generator) by a boundary-safe test against the other one"
         except RecursionError:
             raise
         except Exception:  # noqa: BLE001
